@@ -141,7 +141,9 @@ def write_replay(prop, sc, res, extra=None):
     if extra:
         doc.update(extra)
     with open(path, 'w') as f:
-        json.dump(doc, f, indent=1, sort_keys=True)
+        # (insertion order of dictionaries is part of a scenario: keyword
+        # arguments and dict arguments in non-alphabetical order)
+        json.dump(doc, f, indent=1)
     return path
 
 
